@@ -55,3 +55,43 @@ func VerifHarness_C04_listeners_do_not_share_allocation_tables() {
 	}
 	vReach("end")
 }
+
+// A TCP/TLS client's control connection ends: exactly that client's allocation (the 5-tuple of that connection)
+// is deleted and its relay released; another client's allocation on the same listener stays; the connection is
+// closed; the accept loop ends when the listener is closed.
+//
+//verif:props=C04,C06,C15,C18 unwind=20 bounds="stream listener with two clients' allocations (arbitrary distinct IPv4 client addresses); one accepted connection that ends at once (arbitrary remote address: one of the two clients or neither); then the listener closes"
+func VerifHarness_C04_control_connection_close() {
+	env := allocation.VNewManager(false, false)
+	s := &Server{log: &allocation.VLogger{}, inboundMTU: 1600, nonceHash: vOKNonce{}, realm: "realm"}
+	local := allocation.VTCPAddr4()
+	cA, cB := allocation.VTCPAddr4(), allocation.VTCPAddr4()
+	ftA := &allocation.FiveTuple{SrcAddr: cA, DstAddr: local, Protocol: allocation.UDP}
+	ftB := &allocation.FiveTuple{SrcAddr: cB, DstAddr: local, Protocol: allocation.UDP}
+	vAssume(ftA.Fingerprint() != ftB.Fingerprint())
+	a, err := env.M.CreateAllocation(ftA, &allocation.VPacketConn{Name: "turnA"}, proto.ProtoUDP, 0, 600*time.Second, "u1", "realm", proto.RequestedFamilyIPv4)
+	vAssume(err == nil)
+	b, err := env.M.CreateAllocation(ftB, &allocation.VPacketConn{Name: "turnB"}, proto.ProtoUDP, 0, 600*time.Second, "u2", "realm", proto.RequestedFamilyIPv4)
+	vAssume(err == nil)
+	remote := allocation.VTCPAddr4()
+	conn := &allocation.VConn{Remote: remote, Local: local}
+	l := &allocation.VListener{Address: local, Script: []net.Conn{conn}}
+	first := vSpawnCount()
+	s.readListener(l, env.M)
+	for i := first; i < vSpawnCount(); i++ {
+		if !vSpawnStarted(i) {
+			vRunSpawn(i)
+		}
+	}
+	vYield() // (natively: give the connection's goroutine time to finish)
+	isA := vAnd(remote.Port == cA.Port, vIPEq(remote.IP, cA.IP))
+	isB := vAnd(remote.Port == cB.Port, vIPEq(remote.IP, cB.IP))
+	vAssert((env.M.GetAllocation(ftA) == nil) == isA, "C04.connection_close_deletes_exactly_its_own_five_tuple")
+	vAssert((env.M.GetAllocation(ftB) == nil) == isB, "C04.connection_close_leaves_other_clients_allocations")
+	vAssertIf(isA, env.M.GetAllocation(ftA) == nil, "C06.control_connection_close_deletes_the_allocation")
+	vAssertIf(isA, a.VRelay().Closed == 1, "C15.relay_released_once_when_the_control_connection_ends")
+	vAssertIf(!isB, b.VRelay().Closed == 0, "C15.other_clients_relay_untouched")
+	vAssert(conn.Closed == 1, "C15.ended_control_connection_is_closed_once")
+	vAssert(vLocksHeld() == 0, "C18.no_lock_left_held")
+	vReach("end")
+}
